@@ -222,6 +222,50 @@ class Child(Flow):
         return faults.c19_run(self, w, snap, ev, dev, ctx)
 
 
+class Reset(Driver):
+    """C15: after integration branches exist, every sequence (<= seq_len)
+    of source / destination / manual-commit operations, then `reset` or
+    `force_reset` and the evaluation that executes it, then one more
+    evaluation."""
+    SRC1, SRC2 = 'bugfix/TEST-1', 'bugfix/TEST-2'
+
+    def __init__(self, spec):
+        super().__init__(spec)
+        self.seq_len = spec.get('seq_len', 2)
+        self.ops = spec.get('ops')
+
+    def enabled(self, w, state):
+        n_init = len(self.init_events())
+        pos = w.tick - n_init
+        pr1 = [c for c in state['comments'] if c[0] == 1]
+        if any(c[1] != ROBOT and 'reset' in c[2] for c in pr1):
+            return [['eval_pr', 1]]
+        evs = []
+        hs = heads_of(state)
+        if pos < self.seq_len and self.SRC1 in hs:
+            ws = sorted(b for b in int_branches(state, self.SRC1))
+            pr1s = [p for p in state['prs'] if p['id'] == 1][0]
+            ops = [['push', self.SRC1], ['eval_pr', 1],
+                   ['seq', ['ci_int', 2, 'SUCCESSFUL'], ['eval_pr', 2]]]
+            if not w.is_ancestor(hs[self.SRC1], hs[pr1s['dst']]):
+                # the source still has commits of its own
+                ops += [['amend', self.SRC1], ['reset_src', self.SRC1]]
+            if not w.is_ancestor(hs[pr1s['dst']], hs[self.SRC1]):
+                ops.append(['rebase', self.SRC1])
+            for b in ws:
+                ops.append(['manual', b, 'commit'])
+            if ws:
+                ops.append(['manual', ws[0], 'merge'])
+            if self.ops:
+                ops = [o for o in ops if o[0] in self.ops or
+                       (o[0] == 'seq' and 'merge_pr2' in self.ops)]
+            evs += ops
+        for cmd in ('reset', 'force_reset'):
+            evs.append(['seq', ['comment', 1, AUTHOR, '@robot ' + cmd],
+                        ['eval_pr', 1]])
+        return evs
+
+
 class Script(Driver):
     """A fixed history (spec['script']) followed event by event; deviations
     of kind spec['faults'] on the job transitions listed in
@@ -251,4 +295,4 @@ class Script(Driver):
 
 
 REGISTRY = {'flow': Flow, 'flow_faults': FlowFaults, 'repeat': Repeat,
-            'script': Script, 'child': Child}
+            'script': Script, 'child': Child, 'reset': Reset}
